@@ -45,6 +45,8 @@ _OWS = b" \t"
 
 _HOST_RE = re.compile(
     rb"(?:\[[0-9A-Fa-f:.]+\]|(?:[A-Za-z0-9\-._~!$&'()*+,;=]|%[0-9A-Fa-f]{2})*)(?::[0-9]*)?")
+_HOST_LOOSE_RE = re.compile(
+    rb"(?:[\[\]:]|[A-Za-z0-9\-._~!$&'()*+,;=]|%[0-9A-Fa-f]{2})*(?::[0-9]*)?")
 _VERSION_RE = re.compile(rb"HTTP/([0-9])\.([0-9])")
 
 
@@ -430,6 +432,10 @@ def read_requests(data, *, max_header_size=None, max_body_size=None, body_limit_
                     raise _Stop("reject", "missing_host", stage)
             else:
                 if _HOST_RE.fullmatch(hosts[0]) is None:
+                    # sub-class: only the placement of brackets/colons is wrong (Tornado's
+                    # documented simplification of the uri-host grammar accepts those)
+                    if _HOST_LOOSE_RE.fullmatch(hosts[0]) is not None:
+                        raise _Stop("reject", "invalid_host:bracket_or_colon_placement", stage)
                     raise _Stop("reject", "invalid_host", stage)
                 if b"," in hosts[0]:
                     msg.strict.add("host_comma")
